@@ -107,6 +107,22 @@ func runC20(r *R) {
 		if len(gos) == 0 {
 			r.Bad("C20-R2", fn, "go func", fn.Pos(), "fan-out not found")
 		}
+		// the size limit is about UUIDs: nUUIDs is incremented exactly where a UUID is recorded for its cluster
+		okCount := false
+		allInstrs(fn, func(in ssa.Instruction) {
+			bo, ok := in.(*ssa.BinOp)
+			if !ok || bo.Op != token.ADD || !isNamedPhi(bo.X, "nUUIDs") {
+				return
+			}
+			for _, x := range in.Block().Instrs {
+				if mu, isMU := x.(*ssa.MapUpdate); isMU && typeString(mu.Map.Type()) == "map[string]bool" {
+					if b, isC := ConstBool(mu.Value); isC && b {
+						okCount = true
+					}
+				}
+			}
+		})
+		r.Check(okCount, "C20-R2", fn, "nUUIDs++ with todoByRemote[prefix][uuid] = true", fn.Pos(), "every recorded UUID is counted", "nUUIDs does not count every UUID that will be requested: the page-size rejection never fires and oversized federated queries are executed")
 		// ---- R3
 		for _, g := range gos {
 			cl := StaticCallee(g.Common())
